@@ -154,6 +154,8 @@ class E1:
         cases: optional list of (label, hypothesis) - the obligation is proved per case and a
         separate obligation shows the cases are exhaustive.  split: prove each element of an SA
         goal as its own query."""
+        import inspect as _insp
+        wants_noise = len([p for p in _insp.signature(pred).parameters.values() if p.default is _insp.Parameter.empty]) >= 3
         pred = self._arity3(pred)
         goal = pred(self.ins, self.outs, self.noise)
         hyps = self.hyps + [V.to_z3(h.all() if isinstance(h, S.SA) else h) for h in extra_hyps]
@@ -187,7 +189,7 @@ class E1:
                     self._inconclusive(full + glab + clab, "solver returned unknown")
                     result = None
                     continue
-                r = self._replay(name, full + glab + clab, pred, h2, g, q, site)
+                r = self._replay(name, full + glab + clab, pred, h2, g, q, site, wants_noise)
                 if r is False:
                     return False
                 result = None
@@ -220,6 +222,8 @@ class E1:
                 r = jax.random.uniform(k, shape)
             elif kind == "gumbel":
                 r = jax.random.gumbel(k, shape)
+            elif kind == "perm":
+                r = jax.random.permutation(k, shape[0])
             elif kind == "tnormal":
                 lo, hi = (float(eval(e, {"Fraction": Fraction})[0]) for e in extra)
                 r = jax.random.truncated_normal(k, lo, hi, shape)
@@ -228,30 +232,40 @@ class E1:
             out.append((kind, term, shape, extra, V.obj_array(np.asarray(r))))
         return Noise(out)
 
-    def _replay(self, name, full, pred, hyps, goal, q, site=None):
-        # sat: polish the model, replay on the real code
-        model = self._polish(hyps, goal) or q.model
-        try:
-            conc_args, js = concretise(self.ins, model, self.example_args)
-            S.MODE.numeric, S.MODE.tol = True, TOL
+    def _replay(self, name, full, pred, hyps, goal, q, site=None, wants_noise=True):
+        """sat: turn solver models into concrete inputs and replay them on the real code.  Several models are tried
+        (bounded and away from zero, bounded, the solver's own) because a model may sit on a point where the
+        difference is below the float tolerance."""
+        models = []
+        for strat in ("nonzero", "bounded"):
+            m = self._polish(hyps, goal, strat)
+            if m is not None:
+                models.append(m)
+        models.append(q.model)
+        last_err = None
+        for model in models:
             try:
-                real_outs = self.fn(*fresh_copy(conc_args))
-                ok = pred(as_obj(conc_args), as_obj(real_outs), self._real_noise(conc_args))
-                if isinstance(ok, S.SA):
-                    ok = ok.all()
-                elif isinstance(ok, (list, tuple)):
-                    ok = S.conj(ok)
-            finally:
-                S.MODE.numeric, S.MODE.tol = False, 0.0
-            self.rep.replayed += 1
-        except Exception as e:  # replay itself failed: a loud rejection is not a silent wrong value
-            self._inconclusive(full, f"replay raised {type(e).__name__}: {e}")
-            return None
-        if ok is False or (isinstance(ok, bool) and not ok):
-            self.rep.violation(site or f"{self.site}:{name}", f"obligation '{name}' fails on the real code",
-                               {"obligation": full, "inputs": js, "paths": self.tr.in_paths})
-            return False
-        self._inconclusive(full, "solver model did not reproduce on the real code (encoding gap or float effect)")
+                conc_args, js = concretise(self.ins, model, self.example_args)
+                S.MODE.numeric, S.MODE.tol = True, TOL
+                try:
+                    real_outs = self.fn(*fresh_copy(conc_args))
+                    noise = self._real_noise(conc_args) if wants_noise else self.noise
+                    ok = pred(as_obj(conc_args), as_obj(real_outs), noise)
+                    if isinstance(ok, S.SA):
+                        ok = ok.all()
+                    elif isinstance(ok, (list, tuple)):
+                        ok = S.conj(ok)
+                finally:
+                    S.MODE.numeric, S.MODE.tol = False, 0.0
+                self.rep.replayed += 1
+            except Exception as e:  # replay itself failed: a loud rejection is not a silent wrong value
+                last_err = f"replay raised {type(e).__name__}: {e}"
+                continue
+            if ok is False or (isinstance(ok, bool) and not ok):
+                self.rep.violation(site or f"{self.site}:{name}", f"obligation '{name}' fails on the real code",
+                                   {"obligation": full, "inputs": js, "paths": self.tr.in_paths})
+                return False
+        self._inconclusive(full, last_err or "solver models did not reproduce on the real code (encoding gap or float effect)")
         return None
 
     # ------------------------------------------------------------------ two-copy
@@ -318,7 +332,7 @@ class E1:
         self._inconclusive(full, "solver model did not reproduce on the real code")
         return None
 
-    def _polish(self, hyps, goal):
+    def _polish(self, hyps, goal, strategy="bounded"):
         vs = [v for v in z3_vars_of(self.ins) if v.sort() == z3.RealSort()]
         if not vs:
             return None
@@ -333,6 +347,8 @@ class E1:
             s.add(a)
         for v in vs:
             s.add(v >= -4, v <= 4)
+            if strategy == "nonzero":
+                s.add(z3.Or(v >= z3.RealVal(1) / 2, v <= -z3.RealVal(1) / 2))
         if s.check() == z3.sat:
             return s.model()
         return None
